@@ -12,6 +12,7 @@ static mut COPY_SOURCE_NOT_INPUT: bool = false;
 static mut REMOVED_DIR_NOT_TMP: bool = false;
 static mut LINKED_OR_RENAMED: bool = false; // hard_link / symlink / rename was called (aliases or moves a scanned file)
 static mut WROTE_OUTSIDE_CONTRACT: bool = false; // File::create / fs::write / OpenOptions::open was called
+static mut COPIED_TO_A_NAME_THAT_IS_NOT_FRESH: bool = false; // copy target differs from what random_tmp_file_name handed out
 static mut REMOVES: u32 = 0;
 static mut COPIES: u32 = 0;
 
@@ -39,6 +40,10 @@ fn stub_copy<P: AsRef<std::path::Path>, Q: AsRef<std::path::Path>>(from: P, to: 
         COPIES += 1;
         if !inside_tmp(to.as_ref()) {
             COPIED_TO_OUTSIDE_TMP = true;
+        }
+        let t = to.as_ref().as_os_str().as_bytes();
+        if !(t.len() == 4 && t[0] == b'/' && t[1] == b't' && t[2] == b'/' && t[3] == b'r') {
+            COPIED_TO_A_NAME_THAT_IS_NOT_FRESH = true;
         }
         let f = from.as_ref().as_os_str().as_bytes();
         if !(f.len() == 1 && f[0] == b'f') {
@@ -178,6 +183,9 @@ fn c07_transform_frame() {
     unsafe {
         assert!(!COPIED_TO_OUTSIDE_TMP, "C07.transform_frame.copy_target_inside_tmp");
         assert!(!COPY_SOURCE_NOT_INPUT, "C07.transform_frame.copy_reads_the_input_file");
+        // concurrent transforms of different files must not share a temporary copy (C01: same-named files in different
+        // directories): the copy goes to the fresh name handed out by random_tmp_file_name
+        assert!(!COPIED_TO_A_NAME_THAT_IS_NOT_FRESH, "C01.transform_tmp.copy_target_is_the_fresh_random_name");
         assert!(!REMOVED_OUTSIDE_TMP, "C07.transform_frame.remove_inside_tmp");
         assert!(!REMOVED_DIR_NOT_TMP, "C07.transform_frame.only_tmp_dir_removed_recursively");
         assert!(!LINKED_OR_RENAMED, "C07.transform_frame.scanned_files_are_copied_never_linked_or_renamed");
